@@ -178,6 +178,8 @@ def dirs(rng):
     u = rng.random()
     mus = float(rng.uniform(-1, 1))
     mui = float(rng.uniform(0.02, 0.999))
+    if rng.random() < 0.4:
+        mui = -mui         # the solver asks for both hemispheres of the incident direction as well
     phi = float(rng.uniform(0, 2 * math.pi))
     if u < 0.1:
         mus = mui          # forward / backward geometry: scattering angle 0 at phi = 0
